@@ -10,6 +10,12 @@ STANDING_ASSUMPTIONS = [
 ]
 
 PROPERTIES = {
+    'C07': {
+        'units': ['filter_json', 'filter_parse', 'lex', 'hexread', 'escape', 'hexwrite'],
+        'sample_functions': ['Filter::as_json', 'read_u64', 'read_id', 'parse_json_filter'],
+        'not_decided': ['parse_json_filter against a jfilter spec (values faithful, order independence as a corollary) is not yet stated: proved are its totality, the duplicate-letter/limit/overflow repairs (as absence of panics and of truncating casts) and every leaf reader against its grammar-level spec',
+                        'the lemma jfilter(filter_json(v)) == v (byte-identical re-parse) is not stated; proved is Filter::as_json == filter_json(view): members in fixed order, comma separated, values JSON-escaped'],
+    },
     'C01': {
         'units': ['utf8', 'escape', 'lex', 'hexread', 'tagsjson', 'event_parse', 'event'],
         'kani': ['leaf'], 'kani_quick': ['leaf'],
